@@ -279,6 +279,20 @@ PROPS = {
         "rule": "cases = transitions of the bounded TLC instance replayed against the contracts; distinct = distinct (approval-table state, action) pairs",
         "assumptions": ["soroban-env-host test mode implements on-chain semantics", "bounds: 3 message keys, 7 approval contents, 2 apps"],
     },
+    "C10": {
+        "title": "ITS codec is exact canonical Solidity ABI and never misdecodes",
+        "policy": {"guards": ["canonical", "encodable"], "fields": [], "events": [], "rets": ["*"], "complete_without_control": True},
+        "jobs": [
+            {"kind": "graph", "spec": "MC_C10", "cfg": "MC_C10_quick", "module": "Abi", "tiers": ["quick"], "max_len": 400,
+             "need": ["Encode/ok", "Encode/encodable", "Decode/ok", "DecodeMut/ok", "DecodeMut/canonical"]},
+            {"kind": "graph", "spec": "MC_C10", "cfg": "MC_C10_thorough", "module": "Abi", "tiers": ["thorough"], "max_len": 400,
+             "tlc_timeout": 7200, "need": ["Encode/ok", "Decode/ok", "DecodeMut/ok", "DecodeMut/canonical"]},
+        ],
+        "technique": "Solidity ABI rules transcribed into TLA+ (Abi.tla); TLC is the independent encoder/decoder and case generator; every case executed against the contract's codec",
+        "level_text": "Bounded input-space coverage against a TLA+ transcription of the ABI rules (the 'self-contained function with rich case analysis' use of TLC), not a state-machine argument: TLC encodes a catalogue of messages, checks round trip and injectivity on its own encoder, and decides every mutant of selected encodings (every single-byte flip at every offset with masks 0x01/0x80, every truncation, extensions, offset/length words +-1/+-32, type tags, amounts >= 2^127, decimals 256, invalid UTF-8); the contract's abi_encode / abi_decode must agree byte for byte, never panic, and re-encode every accepted input to itself.",
+        "rule": "cases = encode / decode / decode-of-mutant evaluations, each decided by TLC and executed against the contract codec; distinct = distinct (message, mutation) pairs",
+        "assumptions": ["Abi.tla is a faithful transcription of the Solidity ABI specification for tuples of (uint256, bytes32, bytes/string, uint8)", "bounds: dynamic fields up to 33 (quick) / 65 (thorough) bytes; mutants of every 29th (quick) / 7th (thorough) catalogue entry"],
+    },
 }
 
 NOT_YET = {}
